@@ -10,7 +10,14 @@
         spec_energy l u now = sum over u's locked tokens of balance * (unlock_epoch - now)   (terms of
                               either sign: a token past its unlock epoch contributes negatively)
         spec_total  l u     = sum over u's locked tokens of balance.
-    [view_entry] / [view_amount] are getEnergyEntryForUser / getEnergyAmountForUser. *)
+    [view_entry] / [view_amount] are getEnergyEntryForUser / getEnergyAmountForUser.
+
+    Scope.  "Attributed to an account" is, in this model, "held by the account": locked tokens cannot
+    move between accounts except through the modelled contracts (transfer role).  The whitelisted
+    contract of extendLockPeriod / lockVirtual / mergeTokens(original_caller) is modelled as a
+    pass-through acting for the user within one operation (ExtendVia / LockVirtual / MergeVia);
+    positions that proxy_dex keeps for a user between transactions, its energy_update deduction, the
+    owner-only adjustUserEnergy and the legacy-token migration endpoints are outside this model. *)
 From MX Require Import Base.Prelude Gen.Params Model.Energy Proofs.EnergyProofs.
 
 (** The two sums, spelled out (definitional unfolding, to pin what the theorems are about). *)
@@ -59,17 +66,17 @@ Print Assumptions C08_reach_view.
 
 (** Escrow gives energy to nobody.  (1) The sums above range over the account's OWN balances only;
     (2) the contract accounts — the three escrows among them — never have an entry, whatever they
-    hold; (3) an operation that does not touch an account's own balances does not touch its entry:
-    tokens entering, sitting in or leaving escrow never show up in a third party's energy. *)
+    hold; (3) an operation whose balance changes [d] (the ledger is the list of signed balance
+    changes) name other holders only does not touch the account's entry: tokens entering, sitting in or
+    leaving escrow never show up in a third party's energy. *)
 Theorem C08_escrow_has_no_energy : forall s h, EnergyInv s -> h <= 0 ->
   view_entry s h = mkEn 0 (s_now s) 0 /\ view_amount s h = 0.
 Proof. exact inv_escrow. Qed.
 Print Assumptions C08_escrow_has_no_energy.
 
-Theorem C08_third_party_unaffected : forall s s' u, EnergyInv s -> EnergyInv s' -> 0 < u -> s_now s' = s_now s ->
-  (forall e, lget (s_bal s') u e = lget (s_bal s) u e) ->
-  epochs_of (s_bal s') u = epochs_of (s_bal s) u ->
-  view_entry s' u = view_entry s u.
+Theorem C08_third_party_unaffected : forall s s' u d, EnergyInv s -> EnergyInv s' -> 0 < u -> s_now s' = s_now s ->
+  s_bal s' = d ++ s_bal s -> Forall (fun x => fst (fst x) <> u) d ->
+  view_entry s' u = view_entry s u /\ (forall e, lget (s_bal s') u e = lget (s_bal s) u e).
 Proof. exact inv_frame_view. Qed.
 Print Assumptions C08_third_party_unaffected.
 
